@@ -348,6 +348,9 @@ def _bind_error(prog: Program, callee: FuncInfo, c: CallRec) -> Optional[str]:
                 # explicit Class.method(self, ...) form
                 if any(ci.name == base.id for ci in prog.classes.values()):
                     r = 'unbound'
+                    # Class.make(...) with make a classmethod: the class is supplied
+                    if any(ast.unparse(d_) == 'classmethod' for d_ in callee.node.decorator_list):
+                        r = 'bound'
             if r == 'bound':
                 implicit = 1
         elif callee.name == '__init__':
@@ -846,3 +849,15 @@ def _table_rows(v):
                 rows.setdefault(key, (e, names))
         return rows
     return {}
+
+
+def root_defs(r, name_node, depth=0):
+    """reaching definitions of a name, followed through plain copies (`a = b`, `a, c = (b, d)`): the definitions of the object"""
+    out = set()
+    for i in r.load_defs.get(id(name_node), frozenset()):
+        d = r.defs[i]
+        if d.kind == 'assign' and isinstance(d.rhs, ast.Name) and depth < 8 and id(d.rhs) in r.load_defs:
+            out |= root_defs(r, d.rhs, depth + 1)
+        else:
+            out.add(i)
+    return frozenset(out)
